@@ -116,6 +116,32 @@ def make_cfg(seed, i):
             up["growing.do_geom_steps"] = True
         if r() < 0.3:
             up["growing.reset_delta"] = True
+    if i % 20 == 7:
+        # radius at its cap: the start is 1e2..1e5 initial radii away from the solution of a consistent, well-conditioned linear
+        # system and rhobeg is within a few doublings of 1e10, so every step is very successful and delta runs into the documented
+        # cap (min(max(gamma_inc*delta, gamma_inc_overline*|d|), 1e10)); rhobeg <= 1e10 is the domain (delta = rhobeg at the start)
+        g3 = np.random.default_rng([int(seed), NUM, int(i), 9])
+        n = int(g3.integers(1, 5))
+        m = int(n + g3.integers(0, 3))
+        ps = int(g3.integers(0, 2 ** 31))
+        A, b = gen.linear_data(n, m, ps, 3.0, 1.0)
+        xs = np.linalg.lstsq(A, b, rcond=None)[0]
+        rhobeg = float(10.0 ** g3.uniform(7, 10))
+        dvec = g3.normal(size=n)
+        cfg = dict(prob=dict(kind="linear", n=n, m=m, pseed=ps, cond=3.0, scale=1.0),
+                   x0=(xs + dvec / np.linalg.norm(dvec) * rhobeg * float(10.0 ** g3.uniform(2, 5))).tolist(), lower=None, upper=None,
+                   args=dict(maxfun=int(gen.pick(g3, [30, 60, 120])), rhobeg=rhobeg, rhoend=float(rhobeg * 10.0 ** g3.uniform(-12, -3))),
+                   user_params={"logging.save_diagnostic_info": True, "logging.save_poisedness": False})
+        up = cfg["user_params"]
+        if g3.random() < 0.5:
+            up["tr_radius.gamma_inc"] = float(g3.uniform(1.5, 6.0))
+            up["tr_radius.gamma_inc_overline"] = float(g3.uniform(up["tr_radius.gamma_inc"], 20.0))
+        if g3.random() < 0.3:
+            up["restarts.use_restarts"] = True
+            up["restarts.use_soft_restarts"] = bool(g3.random() < 0.5)
+        if g3.random() < 0.3:
+            cfg["args"]["npt"] = int(n + 1 + g3.integers(1, n + 2))
+        cfg["_family"] = "radius-cap"
     campaign.maybe_failpoint(cfg, rng, p=0.12)
     if i % 12 == 3 and cfg["prob"]["n"] >= 2 and not cfg.get("reg"):
         # soft restart that adds points while the initial set is still growing (the point count must stay within restarts.max_npt)
@@ -244,6 +270,9 @@ def run_case(case):
         feats.append("npt-changed")
     if up.get("growing.reset_rho"):
         feats.append("reset_rho")
+    if np.any(delta == 1e10):
+        feats.append("delta-at-cap")
+    st["rows_delta_above_1e9"] = int(np.sum(delta > 1e9))
     for f in feats:
         st["feature|" + f] = 1
     if feats:
